@@ -822,23 +822,23 @@ func runStaged(p *Prog) (o *Observed) {
 
 // runCompile runs the real pass.Compile end to end (the pass order of pass/pass.go, whatever it is)
 // on a fresh copy of the program: error code, allocation, final nodes
-func runCompile(p *Prog) (code int, alloc [][2]uint64, nodes []ir.Node) {
+func runCompile(p *Prog) (code int, alloc [][2]uint64, nodes []ir.Node, local int) {
 	fn := p.Function()
 	f := ir.NewFile()
 	f.AddSection(fn)
 	defer func() {
 		if v := recover(); v != nil {
-			code, alloc, nodes = panicCode(v), nil, nil
+			code, alloc, nodes, local = panicCode(v), nil, nil, 0
 		}
 	}()
 	if err := pass.Compile.Execute(f); err != nil {
-		return errCode(err), nil, nil
+		return errCode(err), nil, nil, 0
 	}
 	for v, ph := range fn.Allocation {
 		alloc = append(alloc, [2]uint64{uint64(v), uint64(ph)})
 	}
 	sort.Slice(alloc, func(i, j int) bool { return alloc[i][0] < alloc[j][0] })
-	return 0, alloc, snapshotNodes(fn)
+	return 0, alloc, snapshotNodes(fn), fn.LocalSize
 }
 
 func cPairs(l [][2]uint64) string {
